@@ -227,35 +227,29 @@ Theorem err_range_on_char_boundaries : forall gm text ops ls st0 st,
 Proof. intros gm text ops ls st0 st. apply err_range_boundaries. apply gm_all_lossless. Qed.
 Print Assumptions err_range_on_char_boundaries.
 
-(* err_before_ws / warn_before_ws (`pos..pos + 1`): inside the source exactly when
-   something is left of it *)
-Theorem err_before_ws_in_source_iff : forall gm text ls ops st0 st,
-  total_len ls = length text ->
+(* err_before_ws / warn_before_ws point at the character at the start of the
+   lookahead buffer (nothing at the end of the input): inside the source and on
+   character boundaries.  (Before the repair of fea-rs the range was pos..pos + 1:
+   one past the end for a missing final ';', and into the middle of a multi-byte
+   character.) *)
+Theorem err_before_ws_range_on_char_boundaries : forall gm text ops ls st0 st,
+  utf8_wf text = true -> lex text = Some ls ->
   parser_new gm text ls = Some st0 -> run gm text st0 ops = Some st ->
-  (p_start (b0 st) + 1 <= length text <-> s_pos (sk st) < length text).
-Proof.
-  intros gm text ls ops st0 st T N R. eapply err_before_ws_range; eauto. eapply run_good; eauto.
-  apply gm_all_lossless.
-Qed.
-Print Assumptions err_before_ws_in_source_iff.
+  let lo := p_start (b0 st) in
+  let hi := char_end text (p_start (b0 st)) in
+  lo <= hi /\ hi <= length text /\ is_boundary text lo = true /\ is_boundary text hi = true.
+Proof. intros gm text ops ls st0 st. apply err_before_ws_boundaries. apply gm_all_lossless. Qed.
+Print Assumptions err_before_ws_range_on_char_boundaries.
 
-(* … so "every diagnostic is inside its source on character boundaries" is false
-   for err_before_ws: at the end of the input it points one past the end ("a",
-   as in a missing final ';'), and in front of a multi-byte character it ends
-   inside it ("[é").  (Both confirmed on the real code.) *)
-Theorem err_before_ws_refuted :
-  (exists text ops ls st0 st d,
-      lex text = Some ls /\ parser_new None text ls = Some st0 /\ run None text st0 ops = Some st
-      /\ s_errs (sk st) = [d] /\ length text < d_hi d)
-  /\ (exists text ops ls st0 st d,
-      utf8_wf text = true /\ lex text = Some ls /\ parser_new None text ls = Some st0
-      /\ run None text st0 ops = Some st
-      /\ s_errs (sk st) = [d] /\ is_boundary text (d_hi d) = false).
-Proof.
-  split.
-  - exists [97%N], [OEatRaw; OErrBeforeWs true]. vm_compute. eexists _, _, _, _. repeat split; try reflexivity; try lia.
-  - exists [91; 195; 169]%N, [OEatRaw; OErrBeforeWs true]. vm_compute. eexists _, _, _, _. repeat split; reflexivity.
-Qed.
+(* at the end of "a" the range is empty; in front of "é" it covers both bytes *)
+Example err_before_ws_nonvacuous :
+  (exists ls st0 st, lex [97%N] = Some ls /\ parser_new None [97%N] ls = Some st0
+     /\ run None [97%N] st0 [OEatRaw; OErrBeforeWs true] = Some st
+     /\ s_errs (sk st) = [mkDiag 1 1 true])
+  /\ (exists ls st0 st, lex [91; 195; 169]%N = Some ls /\ parser_new None [91; 195; 169]%N ls = Some st0
+     /\ run None [91; 195; 169]%N st0 [OEatRaw; OErrBeforeWs true] = Some st
+     /\ s_errs (sk st) = [mkDiag 1 3 true]).
+Proof. split; vm_compute; eexists _, _, _; repeat split; reflexivity. Qed.
 
 (* ========================= includes ============================================== *)
 
